@@ -233,6 +233,8 @@ impl Engine for C15 {
             tab_desc_pct: 0,
             utf8_id_pct: 0,
             dup_id_pct: 0,
+            mega_1_in: 20000,
+            twin_mega_1_in: 0,
         };
         let mut records = g.gen(rng);
         if (sub == "oligo" || sub == "kcgr") && k >= 6 {
